@@ -21,9 +21,17 @@ def enum_nosentinel(prog, name):
 
 
 class HalModel:
-    def __init__(self, prog, kind):
+    def __init__(self, prog, kind, ns=""):
         self.prog = prog
         self.kind = kind  # 'Camera' | 'Storage'
+        self.ns = ns
+        self.G_STARTED = ("G", "started" + ns)
+        self.G_CLOSED = ("G", "closed" + ns)
+        self.G_LAST = ("G", "last" + ns)
+        self.G_STOP_ATT = ("G", "stop_attempted" + ns)
+        self.DEV = "obj:device" + ns
+        self.DRV = "obj:driver" + ns
+        self.P = "@drv%s:" % ns
         rec = prog.record(kind)
         if not rec:
             raise AnalysisBroken("record %s vanished" % kind)
@@ -42,10 +50,10 @@ class HalModel:
     def stubs(self):
         st = {}
         for slot, ety in self.slots.items():
-            st["@drv:" + slot] = self.make_slot_stub(slot, ety)
-        st["@drv:open"] = self.drv_open
-        st["@drv:describe"] = self.drv_describe
-        st["@drv:close"] = self.drv_close
+            st[self.P + slot] = self.make_slot_stub(slot, ety)
+        st[self.P + "open"] = self.drv_open
+        st[self.P + "describe"] = self.drv_describe
+        st[self.P + "close"] = self.drv_close
         st["device_manager_get_driver"] = self.get_driver
         st["aq_logger"] = lambda it, s, v, fr, n: [(TOP, s)]
         st["device_state_as_string"] = lambda it, s, v, fr, n: [(NZ, s)]
@@ -75,11 +83,11 @@ class HalModel:
                 self.report(it, "HAL-CLOSED-USE", "%s>%s" % (caller, slot),
                             "%s calls the driver's %s() on a device that was already closed" % (caller, slot))
                 return
-            if s.get(G_CLOSED):
+            if s.get(self.G_CLOSED):
                 self.report(it, "HAL-CLOSED-USE", "%s>%s" % (caller, slot),
                             "%s calls the driver's %s() after close" % (caller, slot))
                 return
-            started = s.get(G_STARTED, 0)
+            started = s.get(self.G_STARTED, 0)
             if slot in ("stop",) and not started:
                 self.report(it, "HAL-PROTOCOL", "%s>stop-without-start" % caller,
                             "%s reaches the driver's stop() although no start() succeeded since the device was opened or last stopped"
@@ -88,44 +96,44 @@ class HalModel:
                 self.report(it, "HAL-PROTOCOL", "%s>%s-without-start" % (caller, slot),
                             "%s reaches the driver's %s() outside the running state (no successful start)" % (caller, slot))
             if ety is None:
-                yield (TOP, s.set(G_LAST, (slot, None)))
+                yield (TOP, s.set(self.G_LAST, (slot, None)))
                 return
             for name, val in enum_nosentinel(self.prog, ety):
-                s2 = s.set(G_LAST, (slot, val))
+                s2 = s.set(self.G_LAST, (slot, val))
                 if slot == "start":
                     ok = (val == self.OK) if ety == "DeviceStatusCode" else (val == self.RUNNING)
                     if ok:
-                        s2 = s2.set(G_STARTED, 1).set(("G", "stop_attempted"), 0)
+                        s2 = s2.set(self.G_STARTED, 1).set(self.G_STOP_ATT, 0)
                 if slot == "append" and ety != "DeviceStatusCode" and val != self.RUNNING:
                     # the driver reports that it left the running state by
                     # itself (the shipped writers stop themselves on a failed
                     # append): there is nothing left to stop
-                    s2 = s2.set(G_STARTED, 0)
+                    s2 = s2.set(self.G_STARTED, 0)
                 if slot == "stop":
-                    s2 = s2.set(("G", "stop_attempted"), 1)
+                    s2 = s2.set(self.G_STOP_ATT, 1)
                     if ety == "DeviceStatusCode" or val != self.RUNNING:
-                        s2 = s2.set(G_STARTED, 0)
+                        s2 = s2.set(self.G_STARTED, 0)
                 yield (I(val), s2)
         return stub
 
     def get_driver(self, it, s, vals, fr, n):
-        return [(("ptr", "obj:driver", ()), s)]
+        return [(("ptr", self.DRV, ()), s)]
 
     def drv_open(self, it, s, vals, fr, n):
         # failure: no device
         yield (I(self.status["Device_Err"]), s)
         # success, for each initial state a shipped constructor produces
         for init in ("DeviceState_AwaitingConfiguration", "DeviceState_Closed"):
-            s2, p = it.new_object(s, "device")
+            s2, p = it.new_object(s, self.DEV[4:])
             obj = p[1]
             upd = {(obj, ("state",)): I(self.states[init])}
             for slot in self.slots:
-                upd[(obj, (slot,))] = ("fn", "@drv:" + slot)
+                upd[(obj, (slot,))] = ("fn", self.P + slot)
             s2 = s2.update(upd)
             out = vals[2]
             if is_ptr(out):
                 s2 = it.write(s2, (out[1], out[2]), ("ptr", obj, ("device",)))
-            s2 = s2.set(G_STARTED, 0).set(G_CLOSED, 0)
+            s2 = s2.set(self.G_STARTED, 0).set(self.G_CLOSED, 0)
             yield (I(self.OK), s2)
 
     def drv_describe(self, it, s, vals, fr, n):
@@ -134,12 +142,12 @@ class HalModel:
 
     def drv_close(self, it, s, vals, fr, n):
         caller = it.stack[-2] if len(it.stack) >= 2 else "?"
-        if s.get(G_CLOSED):
+        if s.get(self.G_CLOSED):
             self.report(it, "HAL-CLOSE-ONCE", "%s>second-close" % caller,
                         "%s closes a device that was already closed" % caller)
             return
         dev = vals[1] if len(vals) > 1 else TOP
-        s2 = s.set(G_CLOSED, 1)
+        s2 = s.set(self.G_CLOSED, 1)
         if is_ptr(dev):
             s2 = it.free_object(s2, dev, "driver close")
         for name, val in self.status.items():
@@ -148,9 +156,9 @@ class HalModel:
     # -- harness -----------------------------------------------------------
     def initial_state(self):
         s = State()
-        upd = {("obj:driver", ("open",)): ("fn", "@drv:open"),
-               ("obj:driver", ("describe",)): ("fn", "@drv:describe"),
-               ("obj:driver", ("close",)): ("fn", "@drv:close"),
+        upd = {(self.DRV, ("open",)): ("fn", self.P + "open"),
+               (self.DRV, ("describe",)): ("fn", self.P + "describe"),
+               (self.DRV, ("close",)): ("fn", self.P + "close"),
                ("obj:ident", ("kind",)): I(dict(self.prog.enum_values("DeviceKind"))["DeviceKind_" + self.kind]),
                ("obj:ident", ("device_id",)): I(0),
                ("obj:ident", ("<t>",)): 1,
@@ -160,4 +168,4 @@ class HalModel:
         return s.update(upd)
 
     def dev_state(self, it, s):
-        return it.read_quiet(s, ("obj:device", ("state",)))
+        return it.read_quiet(s, (self.DEV, ("state",)))
